@@ -2,6 +2,7 @@ package spine
 
 import (
 	"fmt"
+	"sync"
 
 	"github.com/enbility/spine-go/api"
 	"github.com/enbility/spine-go/model"
@@ -14,6 +15,9 @@ type Feature struct {
 	description *model.DescriptionType
 	role        model.RoleType
 	operations  map[model.FunctionType]api.OperationsInterface
+
+	// protects the operations, functions can be added while the feature is in use
+	muxOperations sync.RWMutex
 }
 
 var _ api.FeatureInterface = (*Feature)(nil)
@@ -40,8 +44,17 @@ func (r *Feature) Role() model.RoleType {
 	return r.role
 }
 
+// returns a copy, the operations can change at any time
 func (r *Feature) Operations() map[model.FunctionType]api.OperationsInterface {
-	return r.operations
+	r.muxOperations.RLock()
+	defer r.muxOperations.RUnlock()
+
+	operations := make(map[model.FunctionType]api.OperationsInterface, len(r.operations))
+	for function, operation := range r.operations {
+		operations[function] = operation
+	}
+
+	return operations
 }
 
 func (r *Feature) Description() *model.DescriptionType {
